@@ -143,7 +143,17 @@ const POSIX_PIPE_BUF: usize = 512;
 // ------------------------------------------------------------------------------------------
 // (i) operation sequences on the real FIFO
 
+/// a `select` call (no timeout) on one slot that returned `Pending` and is kept alive
+struct Parked {
+    fut: Pin<Box<dyn Future<Output = (Result<(), Errno>, bool, bool)>>>,
+    flag: Arc<Flag>,
+    slot: usize,
+    r: bool,
+    w: bool,
+}
+
 struct OpWorld {
+    parked: Vec<Option<Parked>>,
     system: VirtualSystem,
     inode: Rc<RefCell<Inode>>,
     slots: Vec<Option<(Fd, bool, bool, bool)>>, // fd, readable, writable, nonblocking
@@ -173,6 +183,7 @@ impl OpWorld {
             .save("/p", Rc::clone(&inode))
             .unwrap();
         OpWorld {
+            parked: vec![],
             system,
             inode,
             slots: vec![],
@@ -200,6 +211,54 @@ impl OpWorld {
         let state = self.system.state.borrow();
         let body = state.processes.get(&pid)?.fds().get(&fd)?;
         Some(Rc::clone(&body.open_file_description))
+    }
+
+    /// ids of the parked `select` calls whose waker has fired
+    fn woken(&self) -> Vec<usize> {
+        self.parked
+            .iter()
+            .enumerate()
+            .filter(|(_, p)| p.as_ref().is_some_and(|p| p.flag.0.load(Ordering::SeqCst)))
+            .map(|(j, _)| j)
+            .collect()
+    }
+
+    /// the wake-up half of the property, directly on the real pipe: a parked `select` whose waker has not
+    /// fired waits for a descriptor that is really not ready
+    fn lost_wakeup(&self) -> bool {
+        let (content, readers, writers) = self.view();
+        self.parked.iter().flatten().any(|p| {
+            if p.flag.0.load(Ordering::SeqCst) {
+                return false;
+            }
+            let Some((_, readable, writable, _)) = self.slot(p.slot) else {
+                return false;
+            };
+            let ready_r = !readable || writers == 0 || !content.is_empty();
+            let ready_w = !writable || readers == 0 || PIPE_SIZE - content.len().min(PIPE_SIZE) >= PIPE_BUF;
+            (p.r && ready_r) || (p.w && ready_w)
+        })
+    }
+
+    fn poll_parked(&mut self, j: usize, k: usize) -> String {
+        let p = self.parked[j].as_mut().unwrap();
+        p.flag.0.store(false, Ordering::SeqCst);
+        let waker = Waker::from(Arc::clone(&p.flag));
+        let mut cx = Context::from_waker(&waker);
+        match p.fut.as_mut().poll(&mut cx) {
+            Poll::Pending => format!("parked {j}"),
+            Poll::Ready((res, rr, rw)) => {
+                self.parked[j] = None;
+                match res {
+                    Ok(()) => format!(
+                        "sel R={} W={}",
+                        if rr { k.to_string() } else { "-".into() },
+                        if rw { k.to_string() } else { "-".into() }
+                    ),
+                    Err(e) => format!("sel {}", errno_name(e)),
+                }
+            }
+        }
     }
 
     fn slot(&self, k: usize) -> Option<(Fd, bool, bool, bool)> {
@@ -260,6 +319,12 @@ impl OpWorld {
                 match self.slot(k) {
                     None => "nofd".into(),
                     Some((fd, ..)) => {
+                        // `select` calls parked on this slot are dropped first
+                        for p in self.parked.iter_mut() {
+                            if p.as_ref().is_some_and(|p| p.slot == k) {
+                                *p = None;
+                            }
+                        }
                         self.system.close(fd).ok();
                         self.slots[k] = None;
                         "ok".into()
@@ -392,6 +457,53 @@ impl OpWorld {
                     }
                 }
             }
+            ["park", m, k] => {
+                // `select` without timeout on one slot, polled once with a fresh waker; kept if pending
+                let k: usize = k.parse().ok()?;
+                let (r, w) = match *m {
+                    "r" => (true, false),
+                    "w" => (false, true),
+                    _ => (true, true),
+                };
+                match self.slot(k) {
+                    None => "nofd".into(),
+                    Some((fd, ..)) => {
+                        let sys = self.system.clone();
+                        let fut = Box::pin(async move {
+                            let mut rs = FdSet::new();
+                            let mut ws = FdSet::new();
+                            if r {
+                                rs.insert(fd);
+                            }
+                            if w {
+                                ws.insert(fd);
+                            }
+                            let res = sys.select(&mut rs, &mut ws, None, None).await;
+                            (res.map(|_| ()), rs.contains(fd), ws.contains(fd))
+                        });
+                        let j = self.parked.len();
+                        self.parked.push(Some(Parked {
+                            fut,
+                            flag: Arc::new(Flag(AtomicBool::new(false))),
+                            slot: k,
+                            r,
+                            w,
+                        }));
+                        let txt = self.poll_parked(j, k);
+                        if self.parked[j].is_none() {
+                            self.parked.pop(); // completed at once: no id is used up
+                        }
+                        txt
+                    }
+                }
+            }
+            ["poll", j] => {
+                let j: usize = j.parse().ok()?;
+                match self.parked.get(j).and_then(|p| p.as_ref()).map(|p| p.slot) {
+                    None => "nopark".into(),
+                    Some(k) => self.poll_parked(j, k),
+                }
+            }
             ["selbad", which] => {
                 // `select` on a descriptor that is not open
                 let mut rs = FdSet::new();
@@ -454,6 +566,9 @@ impl OpWorld {
         if after.len() > PIPE_SIZE {
             self.flag(i, "capacity");
         }
+        if self.lost_wakeup() {
+            self.flag(i, "lost-wakeup");
+        }
         Some(res)
     }
 }
@@ -471,13 +586,15 @@ fn run_ops(case: &str) -> (String, String) {
             return ("bad-case".into(), "-".into());
         };
         let (c, rd, wr) = world.view();
+        let wk: Vec<String> = world.woken().iter().map(|j| j.to_string()).collect();
         obs.push(format!(
-            "{} len={} sum={} r={} w={}",
+            "{} len={} sum={} r={} w={} wk={}",
             r,
             c.len(),
             hash_bytes(&c),
             rd,
-            wr
+            wr,
+            if wk.is_empty() { "-".to_string() } else { wk.join(",") }
         ));
     }
     (obs.join(" | "), world.fail.unwrap_or_else(|| "ok".into()))
@@ -548,7 +665,27 @@ fn gen_ops(rng: &mut Rng, len: usize) -> String {
                 _ => rng.below(2 * PIPE_SIZE + 10),
             }
         };
-        let op = match rng.below(108) {
+        let op = match rng.below(124) {
+            108..=115 => {
+                // park a `select`: mostly on the side that is about to block
+                let want_w = rng.chance(1, 2);
+                let k = pick_slot(rng, want_w, &world);
+                let m = if rng.chance(1, 8) { "b" } else if want_w { "w" } else { "r" };
+                format!("park {m} {k}")
+            }
+            116..=123 => {
+                let live: Vec<usize> =
+                    world.parked.iter().enumerate().filter(|(_, p)| p.is_some()).map(|(j, _)| j).collect();
+                let woken = world.woken();
+                let j = if !woken.is_empty() && rng.chance(3, 4) {
+                    *rng.pick(&woken)
+                } else if !live.is_empty() && rng.chance(7, 8) {
+                    *rng.pick(&live)
+                } else {
+                    rng.below(world.parked.len() + 1)
+                };
+                format!("poll {j}")
+            }
             100..=102 => {
                 let k = pick_slot(rng, true, &world);
                 let r = room as i64;
@@ -626,7 +763,141 @@ async fn yields(n: usize) {
     }
 }
 
+/// `xfer … mode=proc`: writer and reader are two *virtual processes*, each inside
+/// `Concurrent::run_virtual` (its own `Concurrent` state, the `VirtualSystem` shared): a process whose
+/// descriptor is not ready parks in `VirtualSystem::select` with its waker registered in the FIFO and is
+/// polled again only when that waker has fired (the executor below never calls `peek`); with probability
+/// 1/8 a process is polled spuriously.  Nothing runnable = `TIMEOUT` (a lost wake-up).
+fn run_xfer_proc(ws: &[&str]) -> (String, String) {
+    let n = kv_n(ws, "n");
+    let data = payload(n, kv_n(ws, "pat"), kv_n(ws, "per"), kv_n(ws, "nl"));
+    let wk = kv_n(ws, "wk");
+    let rk = kv_n(ws, "rk");
+    let mut rng = Rng::new(kv_n(ws, "seed") as u64 ^ 0xC14_0002);
+    let vs1 = VirtualSystem::new();
+    let (rfd, wfd) = vs1.pipe().unwrap();
+    let pid1 = vs1.process_id;
+    let pid2 = yash_env::job::Pid(pid1.0 + 1);
+    {
+        // fork by hand: the child shares the open file descriptions; each side keeps one end
+        let mut st = vs1.state.borrow_mut();
+        let child = yash_env::system::r#virtual::Process::fork_from(pid1, &st.processes[&pid1]);
+        st.processes.insert(pid2, child);
+        st.processes.get_mut(&pid1).unwrap().close_fd(rfd);
+        st.processes.get_mut(&pid2).unwrap().close_fd(wfd);
+    }
+    let mut vs2 = vs1.clone();
+    vs2.process_id = pid2;
+    let c1 = Rc::new(Concurrent::new(vs1));
+    let c2 = Rc::new(Concurrent::new(vs2));
+    let wres: Rc<Cell<Option<&'static str>>> = Rc::new(Cell::new(None));
+    let rres: Rc<Cell<Option<&'static str>>> = Rc::new(Cell::new(None));
+    let received: Rc<RefCell<Vec<u8>>> = Rc::new(RefCell::new(vec![]));
+    let writer: Pin<Box<dyn Future<Output = ()>>> = {
+        let data = data.clone();
+        let wres = Rc::clone(&wres);
+        Box::pin(async move {
+            let sys = Rc::clone(&c1);
+            c1.run_virtual(async move {
+                let piece = if wk == 0 { data.len().max(1) } else { wk };
+                let mut out = "closed";
+                for chunk in data.chunks(piece) {
+                    if sys.write_all(wfd, chunk).await.is_err() {
+                        out = "failed";
+                        break;
+                    }
+                }
+                sys.close(wfd).ok();
+                wres.set(Some(out));
+            })
+            .await
+        })
+    };
+    let reader: Pin<Box<dyn Future<Output = ()>>> = {
+        let rres = Rc::clone(&rres);
+        let received = Rc::clone(&received);
+        Box::pin(async move {
+            let sys = Rc::clone(&c2);
+            c2.run_virtual(async move {
+                if rk == 0 {
+                    let mut buf = vec![];
+                    let r = sys.read_all_to(rfd, &mut buf).await;
+                    *received.borrow_mut() = buf;
+                    rres.set(Some(if r.is_ok() { "done" } else { "error" }));
+                } else {
+                    let mut buf = vec![0u8; rk];
+                    loop {
+                        match sys.read(rfd, &mut buf).await {
+                            Ok(0) => {
+                                rres.set(Some("done"));
+                                break;
+                            }
+                            Ok(m) => received.borrow_mut().extend_from_slice(&buf[..m]),
+                            Err(_) => {
+                                rres.set(Some("error"));
+                                break;
+                            }
+                        }
+                    }
+                }
+                sys.close(rfd).ok();
+            })
+            .await
+        })
+    };
+    let mut tasks = vec![Some(writer), Some(reader)];
+    let flags = [Arc::new(Flag(AtomicBool::new(true))), Arc::new(Flag(AtomicBool::new(true)))];
+    let wakers: Vec<Waker> = flags.iter().map(|f| Waker::from(Arc::clone(f))).collect();
+    let mut budget = 60 * n + 5000;
+    let mut parks = 0usize;
+    loop {
+        if tasks.iter().all(|t| t.is_none()) {
+            break;
+        }
+        budget -= 1;
+        if budget == 0 {
+            return ("TIMEOUT".into(), "FAIL:livelock".into());
+        }
+        let alive: Vec<usize> = (0..2).filter(|&t| tasks[t].is_some()).collect();
+        let runnable: Vec<usize> =
+            alive.iter().copied().filter(|&t| flags[t].0.load(Ordering::SeqCst)).collect();
+        let t = if rng.chance(1, 8) {
+            *rng.pick(&alive) // possibly spurious
+        } else if runnable.is_empty() {
+            return ("TIMEOUT".into(), "FAIL:lost-wakeup".into());
+        } else {
+            *rng.pick(&runnable)
+        };
+        flags[t].0.store(false, Ordering::SeqCst);
+        let mut cx = Context::from_waker(&wakers[t]);
+        if tasks[t].as_mut().unwrap().as_mut().poll(&mut cx).is_ready() {
+            tasks[t] = None;
+        } else {
+            parks += 1;
+        }
+    }
+    let _ = parks;
+    let got = received.borrow().clone();
+    let obs = format!(
+        "recv={}:{} w={} r={}",
+        got.len(),
+        hash_bytes(&got),
+        wres.get().unwrap_or("?"),
+        rres.get().unwrap_or("?")
+    );
+    let oracle = if got != data {
+        let at = got.iter().zip(data.iter()).position(|(a, b)| a != b).unwrap_or(got.len().min(data.len()));
+        format!("FAIL:data-differs-at-{at}")
+    } else {
+        "ok".to_string()
+    };
+    (obs, oracle)
+}
+
 fn run_xfer(ws: &[&str]) -> (String, String) {
+    if kv(ws, "mode") == Some("proc") {
+        return run_xfer_proc(ws);
+    }
     let n = kv_n(ws, "n");
     let data = payload(n, kv_n(ws, "pat"), kv_n(ws, "per"), kv_n(ws, "nl"));
     let wk = kv_n(ws, "wk");
@@ -1963,6 +2234,18 @@ fn main() {
         run(&case, false);
     }
     run("xfer mode=rderr", false);
+    // two virtual processes under `run_virtual` (wakers registered in the FIFO, no `peek`)
+    for &n in &sizes {
+        for _ in 0..(if thorough { 40 } else { 3 }) {
+            let case = gen_xfer(&mut rng, n);
+            run(&format!("{case} mode=proc"), false);
+        }
+    }
+    for _ in 0..(if thorough { 4_000 } else { 150 }) {
+        let n = rng.below(4 * PIPE_SIZE + 3);
+        let case = gen_xfer(&mut rng, n);
+        run(&format!("{case} mode=proc"), false);
+    }
 
     // (ii-c) descriptor choreography: every prologue x every form x sizes
     let forms = ["subst", "nest", "pipe2", "pipe3", "pipe4", "substpipe", "pipesubst"];
